@@ -17,7 +17,8 @@ EXPLANATION = (
     "it buffered. R5: a buffered mutate message is applied only once the client's update tick reached the message's update tick, "
     "and kept otherwise. R6: tick-scoped buffers are consumed exactly once per tick after their last reader. R7: buffers filled "
     "every frame but flushed only on ticks merge keyed writes instead of overwriting. R8: the update channel is reliable-ordered "
-    "and channel ids agree with the channel table.")
+    "and channel ids agree with the channel table."
+    " R12 (= C08.R5): a visibility loss becomes a despawn and a gain a full send for every call sequence of the visibility API, and the callers follow the protocol the exploration assumes (lost entities are despawned unconditionally).")
 NOT_DECIDED = ("convergence itself over all histories and schedules; D10 (a change withheld by the send rate is forgotten) is detected by R11 and recorded as a known finding; D12 and D13 are decided by C03.R9 and "
                "C11.R4 (both found and fixed)")
 TRUSTED_BASE = ["ComponentTicks::is_changed / Tick::is_newer_than of bevy_ecs", "reliable-ordered channels deliver in order without loss"] + C11.TRUSTED_BASE
@@ -447,6 +448,19 @@ def r20_unconditional_mutators(ctx):
     mutators.run_for(ctx, "C01")
 
 
+def r_visibility_state_machine(ctx):
+    """Visibility loss and gain are turned into a despawn and a full send for every call sequence (same rule as C08.R5: finite abstract
+    interpretation of ClientVisibility plus the call protocol it assumes)."""
+    import rules.C08 as C08
+    C08.r5_state_machine(ctx)
+
+
+def r13_ack_list_starts_empty(ctx):
+    """Recycled acknowledgement entity lists are empty when reused (same rule as C11.R6)."""
+    import rules.C11 as C11
+    C11.r6_ack_list_pool(ctx)
+
+
 RULES = [
     ("C01.R1", "mutations are (re)sent iff changed since the client's per-entity baseline and the send rate allows", r1_resend_baseline, 4, ["default", "all-features", "server-only"]),
     ("C01.R2", "acknowledgement: recorded tick, known message, forward-only (same rule as C11.R2)", r2_ack, 6, ["default", "all-features", "server-only"]),
@@ -460,5 +474,7 @@ RULES = [
     ("C01.R10", "first-sight completeness (rules/first_sight.py): which conditions discard the baseline and force a full send", r10_first_sight, 14, ["default", "all-features", "server-only"]),
     ("C01.R11", "a change withheld by the send rate stays pending (per-entity baseline must not pass it unnoticed)", r11_withheld_change_pending, 2, ["default", "all-features", "server-only"]),
     ("C01.R20", "mutators this property relies on always perform their effect (rules/mutators.py): no early return, no guard outside the allowed set", r20_unconditional_mutators, 2, ["default", "all-features"]),
+    ("C01.R12", "visibility loss/gain become despawn/full send for every call sequence (same rule as C08.R5)", r_visibility_state_machine, 25, ["default", "all-features", "server-only"]),
+    ("C01.R13", "recycled acknowledgement entity lists are empty when reused: an ack never moves the baseline of entities of another message (same rule as C11.R6)", r13_ack_list_starts_empty, 1, ["default", "all-features", "server-only"]),
 ]
 THOROUGH_CONFIGS = ["default", "all-features", "server-only", "client-only"]
